@@ -1792,5 +1792,670 @@ theorem Acc.take_none {st : St} {na : NA} (h : Acc rid n1 n2 z H st)
   rw [filter_ne_of_find_none hf]; exact h
 
 
+syntax "a_leaf" : tactic
+syntax "a_bindleaf" : tactic
+macro_rules | `(tactic| a_leaf) => `(tactic| first
+  | with_reducible exact A_send _ _ | with_reducible exact A_freshNonce _ | with_reducible exact A_freshCd _
+  | with_reducible exact A_freshEph _ | with_reducible exact A_removeExpected _
+  | with_reducible exact A_addExpected _ | with_reducible exact A_sessRemove _
+  | with_reducible exact A_removeExpiredSessions _
+  | ((with_reducible apply A_emit); intro _; rfl)
+  | with_reducible apply A_sessPut
+  | with_reducible apply A_sessInsert
+  | (apply A_activeInsert; rfl)
+  | exact A_replayUpd _ _)
+macro_rules | `(tactic| a_bindleaf) => `(tactic| first
+  | ((with_reducible apply A_sessGetMut_bind); intro _ _)
+  | ((with_reducible apply A_encryptMessage_bind); intro _ _))
+macro_rules | `(tactic| ho_leaf) => `(tactic| a_leaf)
+macro_rules | `(tactic| ho_bindleaf) => `(tactic| a_bindleaf)
+
+/-- closes the `SBig` side goals left by the session leaves -/
+macro "a_side" : tactic => `(tactic| first
+  | assumption
+  | exact ‹∀ sess, some _ = some sess → SBig sess› _ rfl
+  | (apply ‹SBig _ → SBig _›; exact ‹∀ sess, some _ = some sess → SBig sess› _ rfl)
+  | (intro _ h; exact nomatch h))
+
+theorem A_isAwaitingSession (c : Cfg) (na) :
+    Ho (Acc rid n1 n2 z H) (isAwaitingSession c na) (fun _ => Acc rid n1 n2 z H) := by
+  unfold isAwaitingSession; ho_walk
+
+theorem A_sendRequest (c : Cfg) (ct : Contact) (r : Nat) (i : Bool) (b : Nat) :
+    Ho (Acc rid n1 n2 z ((r, i) :: H)) (sendRequest c ct r i b)
+      (fun o st => (o = none → Acc rid n1 n2 z H st) ∧
+        (∀ e, o = some e → Acc rid n1 n2 z ((r, i) :: H) st)) := by
+  unfold sendRequest
+  refine Ho.ite (fun _ => Ho.pure _ (fun st hp => ⟨fun h => (nomatch h), fun _ _ => hp⟩)) (fun _ => ?_)
+  refine Ho.bindP Ho.getI (fun s0 => ?_)
+  have hq : Ho (Acc rid n1 n2 z ((r, i) :: H)) (do
+      modS fun s =>
+        let pr : PendingReq := { contact := ct, rid := r, internal := i, body := b }
+        if s.pending.any (·.1 == ct.na) then
+          { s with pending := s.pending.map (fun e => if e.1 == ct.na then (e.1, e.2 ++ [pr]) else e) }
+        else { s with pending := s.pending ++ [(ct.na, [pr])] }
+      return (none : Option Err)) (fun o st => (o = none → Acc rid n1 n2 z H st) ∧
+        (∀ e, o = some e → Acc rid n1 n2 z ((r, i) :: H) st)) :=
+    Ho.bind (A_push ct r i b) (fun _ => Ho.pure _ (fun st hp => ⟨fun _ => hp, fun _ h => nomatch h⟩))
+  refine Ho.ite (fun hc => Ho.pure_bind ?_) (fun _ => Ho.bind (A_isAwaitingSession c ct.na) (fun aw => ?_))
+  · exact Ho.ite (fun _ => hq) (fun h => absurd rfl h)
+  · refine Ho.ite (fun _ => hq) (fun _ => ?_)
+    ho_walk
+    all_goals first
+      | exact ⟨fun _ => by assumption, fun _ h => nomatch h⟩
+      | a_side
+
+theorem A_failItem (r : Nat) (i : Bool) (e : Err) :
+    Ho (Acc rid n1 n2 z ((r, i) :: H)) (if (!i) = true then emit (.failed r e) else pure ())
+      (fun _ => Acc rid n1 n2 z H) := by
+  cases i with
+  | false => exact Ho.ite (fun _ => ⟨fun _ hp => hp.fail e⟩) (fun h => absurd rfl h)
+  | true => exact Ho.ite (fun h => nomatch h) (fun _ => Ho.pure _ (fun _ hp => hp.drop_int))
+
+theorem A_sendPendingRequests (c : Cfg) (na) :
+    Ho (Acc rid n1 n2 z H) (sendPendingRequests c na) (fun _ => Acc rid n1 n2 z H) := by
+  unfold sendPendingRequests
+  refine Ho.getS_bind (fun s0 => ?_)
+  have loop : ∀ prs : List PendingReq, Ho (Acc rid n1 n2 z (prs.map PendingReq.item ++ H))
+      (forEach prs fun pr => do
+        match ← sendRequest c pr.contact pr.rid pr.internal pr.body with
+        | some e => if !pr.internal then emit (.failed pr.rid e)
+        | none => pure ()) (fun _ => Acc rid n1 n2 z H) := by
+    intro prs
+    refine Ho.forEach (fun rest => Acc rid n1 n2 z (rest.map PendingReq.item ++ H)) prs _ (fun pr rest => ?_)
+    refine Ho.bind (A_sendRequest c pr.contact pr.rid pr.internal pr.body) (fun o => ?_)
+    cases o with
+    | none => exact Ho.pure _ (fun _ hp => hp.1 rfl)
+    | some e => exact Ho.pre (A_failItem pr.rid pr.internal e) (fun _ hp => hp.2 e rfl)
+  cases hf : s0.pending.find? (·.1 == na) with
+  | none =>
+    refine Ho.bind (Q := fun _ => Acc rid n1 n2 z H) (Ho.setS _ (fun st hp => ?_)) (fun _ => loop [])
+    obtain ⟨h0, hp⟩ := hp
+    subst h0
+    exact hp.take_none hf
+  | some ent =>
+    refine Ho.bind (Q := fun _ => Acc rid n1 n2 z (ent.2.map PendingReq.item ++ H))
+      (Ho.setS _ (fun st hp => ?_)) (fun _ => loop ent.2)
+    obtain ⟨h0, hp⟩ := hp
+    subst h0
+    exact hp.take hf
+
+/-- `if !i then emit (failed r e); m` consumes the in-hand item `(r, i)`. -/
+theorem A_failThen {α} (r : Nat) (i : Bool) (e : Err) (m : M α) (Q : α → St → Prop)
+    (hm : Ho (Acc rid n1 n2 z H) m Q) :
+    Ho (Acc rid n1 n2 z ((r, i) :: H)) (do
+      if (!i) = true then emit (.failed r e)
+      m) Q := by
+  cases i with
+  | false =>
+    exact Ho.ite (fun _ => Ho.bind (Q := fun _ => Acc rid n1 n2 z H) ⟨fun _ hp => hp.fail e⟩ (fun _ => hm))
+      (fun h => absurd rfl h)
+  | true => exact Ho.ite (fun h => nomatch h) (fun _ => Ho.pre hm (fun _ hp => hp.drop_int))
+
+theorem A_modS (f : HState → HState)
+    (h : ∀ s, (f s).active = s.active ∧ (f s).pending = s.pending ∧ (f s).sessions = s.sessions) :
+    Ho (Acc rid n1 n2 z H) (modS f) (fun _ => Acc rid n1 n2 z H) :=
+  Ho.modS _ (fun st hp => hp.frame (h st.1).1 (h st.1).2.1 (h st.1).2.2 rfl)
+
+theorem A_setS_pinned {s0 : HState} (s' : HState)
+    (h : s'.active = s0.active ∧ s'.pending = s0.pending ∧ s'.sessions = s0.sessions) :
+    Ho (Pin s0 (Acc rid n1 n2 z H)) (setS s') (fun _ => Acc rid n1 n2 z H) :=
+  Ho.setS _ (fun st hp => by
+    obtain ⟨h0, hp⟩ := hp
+    subst h0
+    exact hp.frame h.1 h.2.1 h.2.2 rfl)
+
+theorem A_failSession (c : Cfg) (na e b) :
+    Ho (Acc rid n1 n2 z H) (failSession c na e b) (fun _ => Acc rid n1 n2 z H) := by
+  have tail : Ho (Acc rid n1 n2 z H) (do
+        let calls ← activeRemoveRequests na
+        forEach calls fun call => do
+          if !call.internal then emit (.failed call.rid e)
+          removeExpected na.addr) (fun _ => Acc rid n1 n2 z H) := by
+    refine Ho.bind (A_activeRemoveRequests na) (fun calls => ?_)
+    refine Ho.forEach (fun rest => Acc rid n1 n2 z (rest.map Call.item ++ H)) calls _ (fun call rest => ?_)
+    exact A_failThen call.rid call.internal e _ _ (A_removeExpected _)
+  have mid : Ho (Acc rid n1 n2 z H) (do
+        let s ← getS
+        match s.pending.find? (·.1 == na) with
+        | some ent =>
+          setS { s with pending := s.pending.filter (·.1 != na) }
+          forEach ent.2 fun pr => do
+            if !pr.internal then emit (.failed pr.rid e)
+        | none => pure ()
+        let calls ← activeRemoveRequests na
+        forEach calls fun call => do
+          if !call.internal then emit (.failed call.rid e)
+          removeExpected na.addr) (fun _ => Acc rid n1 n2 z H) := by
+    refine Ho.getS_bind (fun s0 => ?_)
+    split
+    · rename_i ent hf
+      refine Ho.bind (Q := fun _ => Acc rid n1 n2 z (ent.2.map PendingReq.item ++ H))
+        (Ho.setS _ (fun st hp => ?_)) (fun _ => ?_)
+      · obtain ⟨h0, hp⟩ := hp
+        subst h0
+        exact hp.take hf
+      · refine Ho.bind (Ho.forEach (fun rest => Acc rid n1 n2 z (rest.map PendingReq.item ++ H)) ent.2 _
+          (fun pr rest => ?_)) (fun _ => tail)
+        exact A_failItem pr.rid pr.internal e
+    · exact Ho.pre tail (fun _ hp => hp.2)
+  unfold failSession
+  refine Ho.ite (fun _ => ?_) (fun _ => mid)
+  exact Ho.bind (A_removeExpiredSessions c) (fun _ => Ho.bind (A_sessRemove na) (fun _ => mid))
+
+theorem A_failRequest (c : Cfg) (call : Call) (e b) :
+    Ho (Acc rid n1 n2 z (call.item :: H)) (failRequest c call e b) (fun _ => Acc rid n1 n2 z H) := by
+  unfold failRequest
+  exact A_failThen call.rid call.internal e _ _ (A_failSession ..)
+
+theorem A_handleRequestTimeout (c : Cfg) (call : Call) :
+    Ho (Acc rid n1 n2 z (call.item :: H)) (handleRequestTimeout c call) (fun _ => Acc rid n1 n2 z H) := by
+  unfold handleRequestTimeout
+  refine Ho.ite (fun _ => Ho.bind (A_removeExpected _) (fun _ => A_failRequest ..)) (fun _ => ?_)
+  exact Ho.bind (A_send ..) (fun _ => A_activeInsert c _ _ rfl)
+
+theorem A_reencryptAll (c : Cfg) (l : List Call) (sess : Session) (acc) :
+    Ho (Acc rid n1 n2 z H) (reencryptAll c l sess acc)
+      (fun r st => Acc rid n1 n2 z H st ∧ (SBig sess → SBig r.1)) := by
+  induction l generalizing sess acc with
+  | nil => unfold reencryptAll; exact Ho.pure _ (fun _ hp => ⟨hp, id⟩)
+  | cons x xs ih =>
+    unfold reencryptAll
+    refine A_encryptMessage_bind (fun r hr => ?_)
+    exact (ih r.1 _).post (fun _ _ h => ⟨h.1, fun hs => h.2 (hr hs)⟩)
+
+theorem A_reencryptAll_bind {β} {c : Cfg} {l : List Call} {sess : Session} {acc}
+    {k : Session × List (Nat × Pkt) → M β} {Q : β → St → Prop}
+    (h : ∀ r, (SBig sess → SBig r.1) → Ho (Acc rid n1 n2 z H) (k r) Q) :
+    Ho (Acc rid n1 n2 z H) (reencryptAll c l sess acc >>= k) Q :=
+  Ho.bind (A_reencryptAll c l sess acc) (fun r => Ho.pre_pure' (h r))
+
+macro_rules | `(tactic| a_bindleaf) => `(tactic| ((with_reducible apply A_reencryptAll_bind); intro _ _))
+macro_rules | `(tactic| a_leaf) => `(tactic| first
+  | with_reducible exact A_failSession _ _ _ _ | with_reducible exact A_sendPendingRequests _ _
+  | with_reducible exact A_isAwaitingSession _ _
+  | exact A_modS _ (fun _ => ⟨rfl, rfl, rfl⟩)
+  | exact A_setS_pinned _ ⟨rfl, rfl, rfl⟩)
+
+theorem A_replayActiveRequests (c : Cfg) (na sk) :
+    Ho (Acc rid n1 n2 z H) (replayActiveRequests c na sk) (fun _ => Acc rid n1 n2 z H) := by
+  unfold replayActiveRequests; ho_walk
+  all_goals a_side
+macro_rules | `(tactic| a_leaf) => `(tactic| with_reducible exact A_replayActiveRequests _ _ _)
+
+theorem A_newSession (c : Cfg) (na sess sk) (hs : SBig sess) :
+    Ho (Acc rid n1 n2 z H) (newSession c na sess sk) (fun _ => Acc rid n1 n2 z H) := by
+  unfold newSession; ho_walk
+  all_goals exact hs
+
+theorem A_sendChallenge (c : Cfg) (na n k) :
+    Ho (Acc rid n1 n2 z H) (sendChallenge c na n k) (fun _ => Acc rid n1 n2 z H) := by
+  unfold sendChallenge; ho_walk
+
+macro_rules | `(tactic| a_leaf) => `(tactic| first
+  | with_reducible exact A_sendChallenge _ _ _ _
+  | with_reducible apply A_newSession)
+
+theorem A_handleChallenge (c : Cfg) (hl : 1 ≤ c.localId) (src n cd es) :
+    Ho (Acc rid n1 n2 z H) (handleChallenge c src n cd es) (fun _ => Acc rid n1 n2 z H) := by
+  unfold handleChallenge
+  refine Ho.bind (A_activeRemoveByNonce n) (fun r => ?_)
+  cases r with
+  | none => exact Ho.pure _ (fun _ hp => hp.1 rfl)
+  | some call0 =>
+    refine Ho.pre (P' := Acc rid n1 n2 z (call0.item :: H)) ?_ (fun _ hp => hp.2 _ rfl)
+    refine Ho.ite (fun _ => ?_) (fun _ => Ho.ite (fun _ => ?_) (fun _ => ?_))
+    · exact Ho.bind (A_activeInsert c call0 _ rfl) (fun _ => Ho.pureI _)
+    · exact Ho.bind (A_removeExpected _) (fun _ => Ho.bind (A_failRequest ..) (fun _ => Ho.pureI _))
+    · refine Ho.bind (A_freshEph c) (fun eph => Ho.bind (A_freshNonce c) (fun hsNonce => ?_))
+      split <;> split
+      all_goals first
+        | (refine Ho.bind (A_activeInsert c _ _ rfl) (fun _ => Ho.bind (A_send ..) (fun _ => ?_))
+           refine A_freshRid_bind hl (fun rid' hbig => ?_)
+           refine Ho.bind (Q := fun _ => Acc rid n1 n2 z H)
+             (Ho.conseq (A_sendRequest c call0.contact rid' true c.findnode0)
+               (fun _ hp => hp.add_int hbig) (fun o st hp => ?_)) (fun _ => ?_)
+           · cases o with
+             | none => exact hp.1 rfl
+             | some e => exact (hp.2 e rfl).drop_int
+           · refine A_newSession _ _ _ _ ?_
+             intro r h; cases h; exact hbig)
+        | (refine Ho.bind (A_activeInsert c _ _ rfl) (fun _ => ?_)
+           ho_walk
+           intro r h; exact nomatch h)
+
+theorem A_activeInsert' (c : Cfg) (call : Call) (x : Item) (hx : call.item = x) :
+    Ho (Acc rid n1 n2 z (x :: H)) (activeInsert c call)
+      (fun _ st => Acc rid n1 n2 z H st ∧ x ∈ items st.1) :=
+  Ho.conj (A_activeInsert c call x hx) (P' := fun _ => True) ⟨fun st _ => by
+    subst hx
+    show call.item ∈ items { st.1 with active := st.1.active ++ [_], tctr := _ }
+    unfold items
+    simp [Call.item]⟩ |>.pre (fun _ hp => ⟨hp, trivial⟩)
+
+theorem A_resp_keep (na : NA) (r : Nat) (i : Bool) (rb : RespBody) :
+    Ho (fun st => Acc rid n1 n2 z H st ∧ (r, i) ∈ items st.1) (emit (.response na r rb))
+      (fun _ => Acc rid n1 n2 z H) :=
+  ⟨fun _ hp => hp.1.resp_keep na rb (List.mem_append.2 (Or.inl hp.2))⟩
+
+theorem A_resp_final (na : NA) (r : Nat) (i : Bool) (rb : RespBody) :
+    Ho (Acc rid n1 n2 z ((r, i) :: H)) (emit (.response na r rb)) (fun _ => Acc rid n1 n2 z H) :=
+  ⟨fun _ hp => hp.resp_final na rb⟩
+
+theorem A_handleResponse (c : Cfg) (na rid' rb) :
+    Ho (Acc rid n1 n2 z H) (handleResponse c na rid' rb) (fun _ => Acc rid n1 n2 z H) := by
+  unfold handleResponse
+  refine Ho.bind (A_activeRemoveRequest na rid') (fun r => ?_)
+  cases r with
+  | none => exact Ho.pure _ (fun _ hp => hp.1 rfl)
+  | some call =>
+    refine Ho.pre (P' := fun st => Acc rid n1 n2 z ((rid', call.internal) :: H) st ∧ call.rid = rid') ?_
+      (fun _ hp => by have := hp.2 _ rfl; exact ⟨this.2 ▸ this.1, this.2⟩)
+    refine Ho.pre_pure' (fun hrid => ?_)
+    have keep : ∀ call' : Call, call'.item = (rid', call.internal) →
+        Ho (Acc rid n1 n2 z ((rid', call.internal) :: H)) (do
+          activeInsert c call'
+          emit (.response na rid' rb)
+          pure ()) (fun _ => Acc rid n1 n2 z H) := fun call' h =>
+      Ho.bind (A_activeInsert' c call' _ h) (fun _ => Ho.bind (A_resp_keep na rid' call.internal rb)
+        (fun _ => Ho.pureI _))
+    have fin : Ho (Acc rid n1 n2 z ((rid', call.internal) :: H)) (do
+          removeExpected na.addr
+          emit (.response na rid' rb)) (fun _ => Acc rid n1 n2 z H) :=
+      Ho.bind (A_removeExpected _) (fun _ => A_resp_final na rid' call.internal rb)
+    have hitem : ∀ rem, ({ call with remaining := rem } : Call).item = (rid', call.internal) := by
+      intro rem; show (call.rid, call.internal) = _; rw [hrid]
+    cases rb with
+    | other code => exact fin
+    | nodes total recs =>
+      dsimp only
+      refine Ho.ite (fun _ => ?_) (fun _ => fin)
+      split
+      · exact Ho.ite (fun _ => keep _ (hitem _)) (fun _ => fin)
+      · exact keep _ (hitem _)
+
+theorem decryptMessage_awaiting (sess : Session) (n : Nat) (ct : Ct) :
+    (decryptMessage sess n ct).1.awaitingEnr = sess.awaitingEnr := by
+  unfold decryptMessage
+  dsimp only
+  split
+  · rfl
+  · split
+    · split <;> rfl
+    · rfl
+
+theorem establish_sbig {c : Cfg} {id : Id} {ch : Challenge} {sig : Sig} {eph : Nat} {record : Option Rec}
+    {sess : Session} {r : Rec}
+    (h : establishFromChallenge c id ch sig eph record = some (some (sess, r))) : SBig sess := by
+  unfold establishFromChallenge at h
+  dsimp only at h
+  split at h
+  · cases h
+  · split at h
+    · cases h
+    · split at h
+      · cases h
+      · cases h; intro r hr; exact nomatch hr
+
+macro_rules | `(tactic| a_leaf) => `(tactic| first
+  | with_reducible exact A_handleChallenge _ (by assumption) _ _ _ _
+  | with_reducible exact A_handleResponse _ _ _ _)
+
+theorem A_handleMessage (c : Cfg) (na n ct) :
+    Ho (Acc rid n1 n2 z H) (handleMessage c na n ct) (fun _ => Acc rid n1 n2 z H) := by
+  unfold handleMessage
+  refine A_sessGetMut_bind (fun r hr => ?_)
+  cases r with
+  | none => exact A_emit _ (fun _ => rfl)
+  | some sess =>
+    have hs : SBig sess := hr _ rfl
+    have hs' : SBig (decryptMessage sess n ct).1 := by
+      intro r h; rw [decryptMessage_awaiting] at h; exact hs r h
+    dsimp only
+    refine Ho.bind (A_sessPut na _ hs') (fun _ => ?_)
+    split
+    · ho_walk
+    · exact Ho.pureI _
+    · exact A_emit _ (fun _ => rfl)
+    · rename_i rid' rb hpt
+      refine Ho.ite (fun haw => ?_) (fun _ => A_handleResponse ..)
+      have hb : 1000000 ≤ rid' := hs' rid' (beq_iff_eq.1 haw)
+      refine Ho.bind (A_sessPut na _ (fun r h => nomatch h)) (fun _ =>
+        Ho.bind (Q := fun _ => Acc rid n1 n2 z H)
+          ((A_activeRemoveRequest na rid').post (fun o st hp => ?_)) (fun o => ?_))
+      · cases o with
+        | none => exact hp.1 rfl
+        | some call => exact (hp.2 call rfl).1.drop_big ((hp.2 call rfl).2 ▸ hb)
+      · ho_walk
+
+macro_rules | `(tactic| a_leaf) => `(tactic| with_reducible exact A_handleMessage _ _ _ _)
+
+theorem A_handleAuthMessage (c : Cfg) (na n sig eph r ct) :
+    Ho (Acc rid n1 n2 z H) (handleAuthMessage c na n sig eph r ct) (fun _ => Acc rid n1 n2 z H) := by
+  unfold handleAuthMessage
+  refine Ho.getS_pin (fun s0 => ?_)
+  split
+  · exact Ho.pure _ (fun _ hp => hp.2)
+  · refine Ho.bind (A_setS_pinned _ ⟨rfl, rfl, rfl⟩) (fun _ => ?_)
+    split
+    · rename_i sess r' heq
+      ho_walk
+      all_goals exact establish_sbig heq
+    · exact A_modS _ (fun _ => ⟨rfl, rfl, rfl⟩)
+    · ho_walk
+
+theorem A_fireTimers (c : Cfg) (target fuel : Nat) :
+    Ho (Acc rid n1 n2 z H) (fireTimers c target fuel) (fun _ => Acc rid n1 n2 z H) := by
+  induction fuel with
+  | zero => unfold fireTimers; exact Ho.pureI _
+  | succ n ih =>
+    unfold fireTimers
+    refine Ho.getS_bind (fun s0 => ?_)
+    split
+    · exact Ho.pure _ (fun _ hp => hp.2)
+    · rename_i d call hnd
+      have hm := nextDue_inl_mem _ _ _ _ hnd
+      refine Ho.bind (Q := fun _ => Acc rid n1 n2 z (call.item :: H)) (Ho.setS _ (fun st hp => ?_)) (fun _ => ?_)
+      · obtain ⟨h0, hp⟩ := hp
+        subst h0
+        exact hp.move hp.pkn hp.sb (perm_hand (items_erase hm _)) rfl
+      · exact Ho.bind (A_handleRequestTimeout c call) (fun _ => ih)
+    · rename_i d na hnd
+      refine Ho.bind (Q := fun _ => Acc rid n1 n2 z H) (Ho.setS _ (fun st hp => ?_)) (fun _ => ?_)
+      · obtain ⟨h0, hp⟩ := hp
+        subst h0
+        exact hp.frame rfl rfl rfl rfl
+      · exact Ho.bind (A_removeExpected _) (fun _ => Ho.bind (A_sendPendingRequests ..) (fun _ => ih))
+
+macro_rules | `(tactic| a_leaf) => `(tactic| first
+  | with_reducible exact A_handleAuthMessage _ _ _ _ _ _ _ | with_reducible exact A_fireTimers _ _ _)
+
+/-- One step, for an event that does not submit a request. -/
+theorem A_stepM (c : Cfg) (hl : 1 ≤ c.localId) (e : Ev) (he : ∀ ct r b, e ≠ .appRequest ct r b) :
+    Ho (Acc rid n1 n2 z H) (stepM c e) (fun _ => Acc rid n1 n2 z H) := by
+  cases e with
+  | appRequest ct r b => exact absurd rfl (he ct r b)
+  | dgram src p => simp only [stepM]; ho_walk
+  | appResponse na r rb => simp only [stepM]; ho_walk; all_goals a_side
+  | _ => simp only [stepM]; ho_walk
+
+/-- One step submitting request `r`. -/
+theorem A_stepM_req (c : Cfg) (ct : Contact) (r b : Nat) :
+    Ho (Acc rid n1 n2 z ((r, false) :: H)) (stepM c (.appRequest ct r b)) (fun _ => Acc rid n1 n2 z H) := by
+  simp only [stepM]
+  refine Ho.bind (A_sendRequest c ct r false b) (fun o => ?_)
+  cases o with
+  | none => exact Ho.pure _ (fun _ hp => hp.1 rfl)
+  | some e => exact ⟨fun _ hp => (hp.2 e rfl).fail e⟩
+
+/-! ## From the walk to histories -/
+
+def Good (s : HState) : Prop :=
+  PKN s ∧ SessBig s ∧ ∀ x ∈ items s, x.2 = true → 1000000 ≤ x.1
+
+def cnt (rid : Nat) (s : HState) : Nat := (items s).count (rid, false)
+
+/-- 1 if the event submits request `rid`. -/
+def subm (rid : Nat) : Ev → Nat
+  | .appRequest _ r _ => if r = rid then 1 else 0
+  | _ => 0
+
+theorem Good_init : Good {} := by
+  refine ⟨?_, ?_, ?_⟩
+  · exact List.nodup_nil
+  · intro e he; cases he
+  · intro x hx; cases hx
+
+theorem step_spec (c : Cfg) (hl : 1 ≤ c.localId) (s : HState) (hg : Good s) (e : Ev) (rid : Nat) :
+    Good (step c s e).1 ∧
+    nfail rid (step c s e).2 + cnt rid (step c s e).1 ≤ cnt rid s + subm rid e ∧
+    (rid < 1000000 → cnt rid s + subm rid e ≤ cnt rid (step c s e).1 + nabout rid (step c s e).2) ∧
+    (rid < 1000000 → cnt rid s + subm rid e = 0 → nabout rid (step c s e).2 = 0) := by
+  obtain ⟨hpk, hsb, hib⟩ := hg
+  -- the submitted item, if any
+  have key : ∀ (Hs : List Item), (∀ x ∈ Hs, x.2 = false) → Hs.count (rid, false) = subm rid e →
+      Ho (Acc rid (cnt rid s + subm rid e) (cnt rid s + subm rid e)
+        (rid < 1000000 ∧ cnt rid s + subm rid e = 0) Hs) (stepM c e)
+        (fun _ => Acc rid (cnt rid s + subm rid e) (cnt rid s + subm rid e)
+          (rid < 1000000 ∧ cnt rid s + subm rid e = 0) []) →
+      (Good (step c s e).1 ∧
+      nfail rid (step c s e).2 + cnt rid (step c s e).1 ≤ cnt rid s + subm rid e ∧
+      (rid < 1000000 → cnt rid s + subm rid e ≤ cnt rid (step c s e).1 + nabout rid (step c s e).2) ∧
+      (rid < 1000000 → cnt rid s + subm rid e = 0 → nabout rid (step c s e).2 = 0)) := by
+    intro Hs hHs hcount hho
+    have hinit : Acc rid (cnt rid s + subm rid e) (cnt rid s + subm rid e)
+        (rid < 1000000 ∧ cnt rid s + subm rid e = 0) Hs (s, []) := by
+      refine ⟨hpk, hsb, ?_, ?_, ?_, ?_⟩
+      · intro x hx hxi
+        rcases List.mem_append.1 hx with hx | hx
+        · exact hib x hx hxi
+        · rw [hHs x hx] at hxi; cases hxi
+      · show nfail rid [] + _ ≤ _
+        rw [List.count_append, hcount]; simp [nfail, cnt]
+      · intro _
+        rw [List.count_append, hcount]; simp [nabout, cnt]
+      · intro hz
+        refine ⟨hz.1, ?_, rfl⟩
+        rw [List.count_append, hcount]; exact hz.2
+    have hpost := hho.out (s, []) hinit
+    rw [step_eq]
+    generalize ((stepM c e).run (s, [])).2 = st' at hpost
+    have hc : (items st'.1 ++ []).count (rid, false) = cnt rid st'.1 := by rw [List.append_nil]; rfl
+    refine ⟨⟨hpost.pkn, hpost.sb, fun x hx => hpost.ib x (by rw [List.append_nil]; exact hx)⟩, ?_, ?_, ?_⟩
+    · have := hpost.up; rw [hc] at this; exact this
+    · intro hr; have := hpost.lo hr; rw [hc] at this; exact this
+    · intro hr h0; exact (hpost.si ⟨hr, h0⟩).2.2
+  cases e with
+  | appRequest ct r b =>
+    refine key [(r, false)] (fun x hx => by rw [List.mem_singleton.1 hx]) ?_ (A_stepM_req c ct r b)
+    by_cases hr : r = rid
+    · subst hr; simp [subm]
+    · have : ((r, false) == (rid, false)) = false := by
+        cases hb : ((r, false) == (rid, false))
+        · rfl
+        · rw [beq_iff_eq] at hb; cases hb; exact absurd rfl hr
+      simp [subm, hr, List.count_cons, this]
+  | appResponse na r rb =>
+    exact key [] (fun x hx => nomatch hx) rfl (A_stepM c hl _ (fun _ _ _ h => nomatch h))
+  | appWru na n k =>
+    exact key [] (fun x hx => nomatch hx) rfl (A_stepM c hl _ (fun _ _ _ h => nomatch h))
+  | dgram src p =>
+    exact key [] (fun x hx => nomatch hx) rfl (A_stepM c hl _ (fun _ _ _ h => nomatch h))
+  | adv dt =>
+    exact key [] (fun x hx => nomatch hx) rfl (A_stepM c hl _ (fun _ _ _ h => nomatch h))
+  | rtAdv dt =>
+    exact key [] (fun x hx => nomatch hx) rfl (A_stepM c hl _ (fun _ _ _ h => nomatch h))
+
+
+theorem trace_append (c : Cfg) (s : HState) (l1 l2 : List Ev) :
+    trace c s (l1 ++ l2) = trace c s l1 ++ trace c (l1.foldl (fun s e => (step c s e).1) s) l2 := by
+  induction l1 generalizing s with
+  | nil => rfl
+  | cons e es ih => simp only [List.cons_append, trace, List.foldl_cons, ih]
+
+theorem outputs_snoc (c : Cfg) (evs : List Ev) (e : Ev) :
+    outputs c (evs ++ [e]) = outputs c evs ++ (step c (run c evs) e).2 := by
+  unfold outputs
+  rw [trace_append]
+  simp [trace, run]
+
+theorem appRids_append (a b : List Ev) : appRids (a ++ b) = appRids a ++ appRids b := by
+  induction a with
+  | nil => rfl
+  | cons e es ih => cases e <;> simp [appRids, ih]
+
+theorem count_appRids_snoc (evs : List Ev) (e : Ev) (rid : Nat) :
+    (appRids (evs ++ [e])).count rid = (appRids evs).count rid + subm rid e := by
+  rw [appRids_append, List.count_append]
+  congr 1
+  cases e with
+  | appRequest ct r b =>
+    by_cases hr : r = rid
+    · subst hr; simp [appRids, subm]
+    · simp [appRids, subm, hr, List.count_cons]
+  | _ => simp [appRids, subm]
+
+theorem AppDiscipline.prefix {c : Cfg} {a b : List Ev} (h : AppDiscipline c (a ++ b)) : AppDiscipline c a := by
+  obtain ⟨h1, h2, h3⟩ := h
+  rw [appRids_append] at h1 h2
+  exact ⟨(List.nodup_append.1 h1).1, fun r hr => h2 r (List.mem_append.2 (Or.inl hr)), h3⟩
+
+theorem Good_run (c : Cfg) (hl : 1 ≤ c.localId) (evs : List Ev) : Good (run c evs) := by
+  induction evs using snoc_induction with
+  | h0 => exact Good_init
+  | h1 evs e ih => rw [run_snoc]; exact (step_spec c hl _ ih e 0).1
+
+/-- Upper bound: reported failures plus tracked occurrences never exceed the submissions. -/
+theorem global_upper (c : Cfg) (hl : 1 ≤ c.localId) (evs : List Ev) (rid : Nat) :
+    nfail rid (outputs c evs) + cnt rid (run c evs) ≤ (appRids evs).count rid := by
+  induction evs using snoc_induction with
+  | h0 => simp [outputs, trace, nfail, cnt, run, items, pitems, appRids]
+  | h1 evs e ih =>
+    have := (step_spec c hl _ (Good_run c hl evs) e rid).2.1
+    rw [outputs_snoc, nfail_append, run_snoc, count_appRids_snoc]
+    omega
+
+/-- Lower bound: every submission is still tracked or has been reported on. -/
+theorem global_lower (c : Cfg) (hl : 1 ≤ c.localId) (evs : List Ev) (rid : Nat) (hr : rid < 1000000) :
+    (appRids evs).count rid ≤ cnt rid (run c evs) + nabout rid (outputs c evs) := by
+  induction evs using snoc_induction with
+  | h0 => simp [appRids]
+  | h1 evs e ih =>
+    have := (step_spec c hl _ (Good_run c hl evs) e rid).2.2.1 hr
+    rw [outputs_snoc, nabout_append, run_snoc, count_appRids_snoc]
+    omega
+
+theorem cnt_eq (rid : Nat) (s : HState) : cnt rid s = (trackedExt s).count rid := (count_trackedExt rid s).symm
+
+theorem tracked_nodup' (c : Cfg) (evs : List Ev) (h : AppDiscipline c evs) :
+    (trackedExt (run c evs)).Nodup := by
+  rw [List.nodup_iff_count]
+  intro rid
+  have h1 := global_upper c h.2.2 evs rid
+  have h2 := (List.nodup_iff_count.1 h.1) rid
+  rw [← cnt_eq]; omega
+
+theorem nabout_zero {rid : Nat} {os : List Out} (h : nabout rid os = 0) :
+    ∀ o ∈ os, aboutRid rid o = false := by
+  intro o ho
+  unfold nabout at h
+  have := List.length_eq_zero_iff.1 h
+  rw [List.filter_eq_nil_iff] at this
+  cases hb : aboutRid rid o
+  · rfl
+  · exact absurd hb (this o ho)
+
+theorem subm_zero {rid : Nat} {e : Ev} (hs : ∀ ct b, e ≠ .appRequest ct rid b) : subm rid e = 0 := by
+  cases e with
+  | appRequest ct r b =>
+    by_cases hr : r = rid
+    · subst hr; exact absurd rfl (hs ct b)
+    · simp [subm, hr]
+  | _ => rfl
+
+theorem untracked_silent' (c : Cfg) (evs : List Ev) (e : Ev) (rid : Nat)
+    (h : AppDiscipline c (evs ++ [e])) (hr : rid < 1000000) (hn : rid ∉ trackedExt (run c evs))
+    (hs : ∀ ct b, e ≠ .appRequest ct rid b) :
+    ∀ o ∈ (step c (run c evs) e).2, aboutRid rid o = false := by
+  have h0 : cnt rid (run c evs) = 0 := by rw [cnt_eq]; exact List.count_eq_zero.2 hn
+  have := (step_spec c h.2.2 _ (Good_run c h.2.2 evs) e rid).2.2.2 hr (by rw [h0, subm_zero hs])
+  exact nabout_zero this
+
+theorem nfail_pos {rid : Nat} {er : Err} {os : List Out} (h : Out.failed rid er ∈ os) : 1 ≤ nfail rid os := by
+  unfold nfail
+  have : Out.failed rid er ∈ os.filter (isFailure rid) := List.mem_filter.2 ⟨h, by simp [isFailure]⟩
+  exact List.length_pos_of_mem this
+
+theorem failure_untracks' (c : Cfg) (evs : List Ev) (e : Ev) (rid : Nat) (er : Err)
+    (h : AppDiscipline c (evs ++ [e])) (hf : Out.failed rid er ∈ (step c (run c evs) e).2) :
+    rid ∉ trackedExt (run c (evs ++ [e])) ∧
+    ((step c (run c evs) e).2.filter (isFailure rid)).length = 1 := by
+  have hl := h.2.2
+  have h1 := (step_spec c hl _ (Good_run c hl evs) e rid).2.1
+  have h2 := global_upper c hl evs rid
+  have h3 := (List.nodup_iff_count.1 h.1) rid
+  rw [count_appRids_snoc] at h3
+  have h4 := nfail_pos hf
+  rw [run_snoc]
+  refine ⟨?_, ?_⟩
+  · rw [← List.count_eq_zero, ← cnt_eq]; omega
+  · show nfail rid _ = 1; omega
+
+theorem at_most_one_failure' (c : Cfg) (evs : List Ev) (h : AppDiscipline c evs) (rid : Nat) :
+    ((outputs c evs).filter (isFailure rid)).length ≤ 1 := by
+  have h1 := global_upper c h.2.2 evs rid
+  have h2 := (List.nodup_iff_count.1 h.1) rid
+  show nfail rid _ ≤ 1; omega
+
+theorem nothing_after_failure_aux (c : Cfg) (rid : Nat) (hr : rid < 1000000) (rest : List Ev) :
+    ∀ evs : List Ev, AppDiscipline c (evs ++ rest) → cnt rid (run c evs) = 0 →
+      1 ≤ (appRids evs).count rid →
+      ∀ o ∈ (trace c (run c evs) rest).flatten, aboutRid rid o = false := by
+  induction rest with
+  | nil => intro evs _ _ _ o ho; simp [trace] at ho
+  | cons e rest ih =>
+    intro evs h h0 h1 o ho
+    have hd : AppDiscipline c (evs ++ [e]) := by
+      have : evs ++ e :: rest = (evs ++ [e]) ++ rest := by simp
+      rw [this] at h; exact h.prefix
+    have hl := h.2.2
+    have hsub : subm rid e = 0 := by
+      have := (List.nodup_iff_count.1 hd.1) rid
+      rw [count_appRids_snoc] at this; omega
+    have hs := step_spec c hl _ (Good_run c hl evs) e rid
+    simp only [trace, List.flatten_cons, List.mem_append] at ho
+    rcases ho with ho | ho
+    · exact nabout_zero (hs.2.2.2 hr (by omega)) o ho
+    · have hrun : (step c (run c evs) e).1 = run c (evs ++ [e]) := (run_snoc c evs e).symm
+      rw [hrun] at ho
+      refine ih (evs ++ [e]) (by simpa using h) ?_ ?_ o ho
+      · have := hs.2.1; rw [hrun] at this; omega
+      · rw [count_appRids_snoc]; omega
+
+theorem nothing_after_failure' (c : Cfg) (evs rest : List Ev) (rid : Nat) (er : Err)
+    (h : AppDiscipline c (evs ++ rest)) (hr : rid < 1000000) (hf : Out.failed rid er ∈ outputs c evs) :
+    ∀ o ∈ (trace c (run c evs) rest).flatten, aboutRid rid o = false := by
+  have h1 := global_upper c h.2.2 evs rid
+  have h2 := (List.nodup_iff_count.1 h.prefix.1) rid
+  have h3 := nfail_pos hf
+  exact nothing_after_failure_aux c rid hr rest evs h (by omega) (by omega)
+
+theorem nabout_pos {rid : Nat} {os : List Out} (h : 1 ≤ nabout rid os) : ∃ o ∈ os, aboutRid rid o = true := by
+  unfold nabout at h
+  obtain ⟨o, ho⟩ := List.exists_mem_of_length_pos h
+  exact ⟨o, (List.mem_filter.1 ho).1, (List.mem_filter.1 ho).2⟩
+
+theorem every_request_accounted' (c : Cfg) (evs : List Ev) (h : AppDiscipline c evs) (rid : Nat)
+    (hr : rid ∈ appRids evs) :
+    rid ∈ trackedExt (run c evs) ∨ ∃ o ∈ outputs c evs, aboutRid rid o = true := by
+  have h1 := global_lower c h.2.2 evs rid (h.2.1 rid hr)
+  have h2 : 1 ≤ (appRids evs).count rid := List.one_le_count_iff.2 hr
+  by_cases h3 : 1 ≤ cnt rid (run c evs)
+  · rw [cnt_eq] at h3; exact Or.inl (List.one_le_count_iff.1 h3)
+  · exact Or.inr (nabout_pos (by omega))
+
+theorem quiescent_complete' (c : Cfg) (evs : List Ev) (h : AppDiscipline c evs)
+    (h1 : (run c evs).active = []) (h2 : (run c evs).challenges = []) :
+    (∀ e ∈ (run c evs).pending, e.2 = []) ∧
+    ∀ rid ∈ appRids evs, ∃ o ∈ outputs c evs, aboutRid rid o = true := by
+  have hq : ∀ e ∈ (run c evs).pending, e.2 = [] := by
+    intro e he
+    cases hne : e.2 with
+    | nil => rfl
+    | cons x xs =>
+      have := pending_has_releaser' c evs e he (by rw [hne]; exact List.cons_ne_nil _ _)
+      rw [h1, h2] at this
+      simp at this
+  refine ⟨hq, fun rid hr => ?_⟩
+  rcases every_request_accounted' c evs h rid hr with ht | ho
+  · exfalso
+    unfold trackedExt at ht
+    rw [h1] at ht
+    simp only [List.filter_nil, List.map_nil, List.nil_append, List.mem_flatMap] at ht
+    obtain ⟨e, he, hm⟩ := ht
+    rw [hq e he] at hm
+    simp at hm
+  · exact ho
+
 end Discv5.H
 
